@@ -481,6 +481,9 @@ fn run_case(c: &Case) -> Outcome {
         if !r.result.is_err() {
             bad(format!("connection-not-ended-after-timeout/{}", r.result.kind()), "the connection did not end after the missed Keep Alive".into(), json!({}));
         }
+        if f.disconnects.len() > 1 {
+            bad("timeout-disconnect-twice".into(), format!("{} Disconnect packets were sent to one client", f.disconnects.len()), json!({"clientbound": names}));
+        }
         if names.last() != Some(&"ConfDisconnect") && timeout_disconnect {
             bad("packet-after-timeout-disconnect".into(), "packets after the timeout Disconnect".into(), json!({}));
         }
